@@ -6,6 +6,7 @@ import (
 	"io"
 	"os"
 	"path/filepath"
+	"runtime/debug"
 	"strings"
 	"sync"
 	"sync/atomic"
@@ -739,6 +740,7 @@ func runC17Concurrent(c c17Case) kit.Result {
 		}
 		genAtEnd := gen
 		func() {
+			defer debug.SetPanicOnFault(debug.SetPanicOnFault(true))
 			defer func() {
 				if p := recover(); p != nil {
 					res.Err = fmt.Errorf("restoring the streamed snapshot panicked: %v", p)
@@ -750,7 +752,16 @@ func runC17Concurrent(c c17Case) kit.Result {
 			abandon = true
 			return res
 		}
-		g, rerr := readGeneration(w, c.Entities)
+		// (a stream that is not one committed state can be an unreadable file: a fault while reading it is a verdict)
+		g, rerr := func() (g int, err error) {
+			defer debug.SetPanicOnFault(debug.SetPanicOnFault(true))
+			defer func() {
+				if p := recover(); p != nil {
+					g, err = -1, fmt.Errorf("reading the restored database faults: %v", p)
+				}
+			}()
+			return readGeneration(w, c.Entities)
+		}()
 		if rerr != nil || g < genAtStart || g > genAtEnd {
 			res.Err = fmt.Errorf("a snapshot streamed while generations %d..%d were being committed restores to generation %d, error: %v", genAtStart, genAtEnd, g, rerr)
 			return res
